@@ -869,6 +869,10 @@ func toBinary(val interface{}) (string, error) {
 		r := b64.StdEncoding.EncodeToString(x)
 		return r, nil
 	case string:
+		// RFC 7950 9.8.2: the lexical form of a binary value is base64
+		if _, err := b64.StdEncoding.DecodeString(x); err != nil {
+			return "", fmt.Errorf("cannot coerse '%s' to binary value, %w", x, err)
+		}
 		return x, nil
 	}
 	return "", fmt.Errorf("cannot coerse '%T' to binary value", val)
